@@ -344,7 +344,7 @@ __CPROVER_ensures(SI(H_CB(this_)))
  *          object before anything else is done with it;
  *        - the future of the state is not pending: future::result_of destroys and re-creates the future in place, and a pending
  *          future must not be destroyed (future_common: "Destroy of pending future"). */
-#ifdef CV_HAS_sf_shift
+#if defined(CV_HAS_sf_shift) && !defined(SHIFT_ON_EMPTY)
 SF *sf_shift(SF *this_, FFN *fn)
 __CPROVER_requires(MODEL_PRE && __CPROVER_is_fresh(this_, sizeof(*this_)) && __CPROVER_is_fresh(fn, sizeof(*fn)))
 REQ_H_FRESH(this_, 1)                                                                      /* documented precondition: initialised (non-empty) handle */
@@ -364,6 +364,29 @@ __CPROVER_ensures(gh_env_choice != 0 ==> (IS_READY(gh_obj0) && TR_EMPTY(gh_obj0)
 __CPROVER_ensures(gh_env_choice == 1 ==> (STATE(gh_obj0) == ST_VALUE && VALUE(gh_obj0) == gh_env_val))
 __CPROVER_ensures(gh_env_choice == 2 ==> STATE(gh_obj0) == ST_NOT_VALUE)
 __CPROVER_ensures(EP_RELEASED_IFF(gh_exc0))                                                   /* a stored exception of the replaced result is released exactly once */
+;
+#endif
+
+/* ---- OBSERVATION unit (opt-in: C17_SHIFT_ON_EMPTY=1 ./check C17 quick --unit shift_on_empty; NOT part of the default run, NOT a finding):
+ *      operator<< on a DEFAULT-CONSTRUCTED (empty) handle.  The header does not document operator<< as an initialisation route: the default constructor's
+ *      documentation names init_if_needed() and get_promise() ("If you need to initialize the object, call init_if_needed() or get_promise()"), operator<<
+ *      is documented as "same as result_of" (which needs an existing future), and the property statement names get_promise() only.  So "non-empty" is a
+ *      documented precondition of unit `shift`.  This unit states what operator<< WOULD have to guarantee if it were such a route (hypothetical clause:
+ *      afterwards the handle owns a new state that holds the operation started by fn, tracer charged iff pending) - on the unchanged tree it fails with
+ *      the model obligation "shared_ptr<future_internal>::operator->() on an empty std::shared_ptr (null pointer dereference)" (natively: SIGSEGV,
+ *      replay/c17_shift_on_empty.cpp); with the hardening specs/C17/fix_shift_on_empty.diff (init_if_needed() first) it holds. */
+#if defined(CV_HAS_sf_shift) && defined(SHIFT_ON_EMPTY)
+SF *sf_shift(SF *this_, FFN *fn)
+__CPROVER_requires(MODEL_PRE && __CPROVER_is_fresh(this_, sizeof(*this_)) && __CPROVER_is_fresh(fn, sizeof(*fn)) && H_EMPTY(this_))
+__CPROVER_requires(gh_env_choice >= 0 && gh_env_choice <= 2 && gh_env_calls == 0 && gh_sub_calls == 0 && gh_sub_ok == 0)
+__CPROVER_assigns(__CPROVER_object_whole(this_), GH_MAKE, GH_ENV, GH_SUB, GH_PDTOR, GH_EP, cv_exc_obj, cv_exc_tinfo)
+__CPROVER_ensures(cv_exc_pending == 0 && __CPROVER_return_value == this_)
+__CPROVER_ensures(gh_allocs == __CPROVER_old(gh_allocs) + 1 && gh_frees == __CPROVER_old(gh_frees))
+__CPROVER_ensures(H_LIVE(this_))
+__CPROVER_ensures(gh_env_calls == 1 && gh_env_owner == FUT_OF(H_OBJ(this_)))
+__CPROVER_ensures(CREATED(gh_env_choice == 0, TRC(H_CB(this_)), THIS_ALIVE_WITH))
+__CPROVER_ensures((gh_env_choice == 0) == (IS_PENDING(H_OBJ(this_)) ? 1 : 0))
+__CPROVER_ensures(gh_env_choice == 1 ==> (STATE(H_OBJ(this_)) == ST_VALUE && VALUE(H_OBJ(this_)) == gh_env_val))
 ;
 #endif
 
@@ -474,15 +497,102 @@ __CPROVER_ensures(gh_ep_addref - __CPROVER_old(gh_ep_addref) == gh_ep_release - 
 ;
 #endif
 
-/* ---- wait(): pure forwarder to the shared state's future<int>::wait() (an abstract callee here that records the call) */
+/* ---- wait() / force_wait() / join() / sync() / force_sync(): pure forwarders to the member of the same name of the shared state's future<int>
+ *      (abstract callees here that record which member was called on which object; their blocking behaviour - "blocks until the awaiter chain is
+ *      resolved" - is the subject of C02: units co_sync / co_await_suspend, re-run under C17).  Clause from the property statement: "all copies observe
+ *      the same single result": whichever copy blocks, it blocks on the ONE future of the shared state, and wait()/force_wait() hand out the value
+ *      object stored there (the same lvalue value() returns for every copy).  join(): "For compatible API - same as wait()" (waits, result dropped).
+ *      sync()/force_sync(): wait only, pick nothing (no exception either).  Documented precondition of all five: the handle is not empty. */
+enum { FW_NONE, FW_WAIT, FW_FORCE_WAIT, FW_SYNC, FW_FORCE_SYNC };
+unsigned gh_fw_calls; FUT *gh_fw_this; int gh_fw_kind;
+#define GH_FW gh_fw_calls, gh_fw_this, gh_fw_kind
+#define FW_RECORD(f, k) do { gh_fw_calls++; gh_fw_this = (f); gh_fw_kind = (k); } while (0)
+#define FORWARDED(k) (cv_exc_pending == 0 && gh_fw_calls == 1 && gh_fw_this == FUT_OF(H_OBJ(this_)) && gh_fw_kind == (k))
+#ifdef CV_HAS_fut_wait
+cv_i32 *fut_wait(FUT *f) { FW_RECORD(f, FW_WAIT); return &FVALUE(f); }
+#endif
+#ifdef CV_HAS_fut_force_wait
+cv_i32 *fut_force_wait(FUT *f) { FW_RECORD(f, FW_FORCE_WAIT); return &FVALUE(f); }
+#endif
+#ifdef CV_HAS_fut_sync
+void fut_sync(FUT *f) { FW_RECORD(f, FW_SYNC); }
+#endif
+#ifdef CV_HAS_fut_force_sync
+void fut_force_sync(FUT *f) { FW_RECORD(f, FW_FORCE_SYNC); }
+#endif
+#define FW_CONTRACT_PRE \
+__CPROVER_requires(MODEL_PRE && gh_fw_calls == 0 && gh_fw_kind == FW_NONE && __CPROVER_is_fresh(this_, sizeof(*this_))) \
+REQ_H_FRESH(this_, 1) \
+__CPROVER_requires(PEQ(gh_cb0, H_CB(this_)) && PEQ(gh_obj0, H_OBJ(this_)) && gh_c0 == gh_cb0->strong) \
+__CPROVER_assigns(GH_FW)
+#define FW_UNCHANGED (H_CB(this_) == gh_cb0 && H_OBJ(this_) == gh_obj0 && gh_cb0->strong == gh_c0 && gh_allocs == __CPROVER_old(gh_allocs) && gh_frees == __CPROVER_old(gh_frees))   /* takes / drops no reference */
 #ifdef CV_HAS_sf_wait
-unsigned gh_fw_calls; FUT *gh_fw_this;
-cv_i32 *fut_wait(FUT *f) { gh_fw_calls++; gh_fw_this = f; return &FVALUE(f); }
 cv_i32 *sf_wait(SF *this_)
-__CPROVER_requires(MODEL_PRE && gh_fw_calls == 0 && __CPROVER_is_fresh(this_, sizeof(*this_)))
-REQ_H_FRESH(this_, 1)
-__CPROVER_assigns(gh_fw_calls, gh_fw_this)
-__CPROVER_ensures(cv_exc_pending == 0 && gh_fw_calls == 1 && gh_fw_this == FUT_OF(H_OBJ(this_)) && __CPROVER_return_value == &VALUE(H_OBJ(this_)))
+FW_CONTRACT_PRE
+__CPROVER_ensures(FORWARDED(FW_WAIT) && __CPROVER_return_value == &VALUE(H_OBJ(this_)) && FW_UNCHANGED)
+;
+#endif
+#ifdef CV_HAS_sf_force_wait
+cv_i32 *sf_force_wait(SF *this_)
+FW_CONTRACT_PRE
+__CPROVER_ensures(FORWARDED(FW_FORCE_WAIT) && __CPROVER_return_value == &VALUE(H_OBJ(this_)) && FW_UNCHANGED)
+;
+#endif
+#ifdef CV_HAS_sf_join
+void sf_join(SF *this_)
+FW_CONTRACT_PRE
+__CPROVER_ensures(FORWARDED(FW_WAIT) && FW_UNCHANGED)                              /* "same as wait()": blocks on the shared state's future, exactly once */
+;
+#endif
+#ifdef CV_HAS_sf_sync
+void sf_sync(SF *this_)
+FW_CONTRACT_PRE
+__CPROVER_ensures(FORWARDED(FW_SYNC) && FW_UNCHANGED)
+;
+#endif
+#ifdef CV_HAS_sf_force_sync
+void sf_force_sync(SF *this_)
+FW_CONTRACT_PRE
+__CPROVER_ensures(FORWARDED(FW_FORCE_SYNC) && FW_UNCHANGED)
+;
+#endif
+/* ---- operator Base&(): the shared state's future itself ("retrieved as reference, can't be copied"); takes no reference */
+#ifdef CV_HAS_sf_as_future
+FUT *sf_as_future(SF *this_)
+FW_CONTRACT_PRE
+__CPROVER_ensures(cv_exc_pending == 0 && gh_fw_calls == 0 && __CPROVER_return_value == FUT_OF(H_OBJ(this_)) && FW_UNCHANGED)
+;
+#endif
+
+/* ---- static factories set_value(args...) / set_exception(e): "return resolved future".  A handle on a NEW shared state (one allocation) that is
+ *      already resolved: ready, the tracer holds nothing (strong == 1: the state goes away with its last handle), and the result is the one handed in:
+ *      set_value(v): value v; set_exception(e): the exception object e designates - the one every copy will rethrow (unit value) -, of which the state
+ *      owns exactly ONE reference (the caller's, moved in, or a new one) that is released with the state (units dtor / copy_assign / tracer_resume). */
+#ifdef CV_HAS_sf_set_exception
+void sf_set_exception(SF *this_, EXCPTR *e)
+__CPROVER_requires(MODEL_PRE && __CPROVER_is_fresh(this_, sizeof(*this_)) && __CPROVER_is_fresh(e, sizeof(*e)) && gh_sub_calls == 0 && gh_sub_ok == 0)
+__CPROVER_requires(__CPROVER_is_fresh(gh_excblk, CV_EXC_HDR + 8) && PEQ(*(void **)e, gh_excblk + CV_EXC_HDR))          /* a live exception object of the exception model */
+__CPROVER_assigns(__CPROVER_object_whole(this_), __CPROVER_object_whole(e), GH_MAKE, GH_SUB, GH_EP, GH_PDTOR, cv_exc_obj, cv_exc_tinfo)
+__CPROVER_ensures(cv_exc_pending == 0)
+__CPROVER_ensures(gh_allocs == __CPROVER_old(gh_allocs) + 1 && gh_sp_made == __CPROVER_old(gh_sp_made) + 1 && gh_frees == __CPROVER_old(gh_frees))
+__CPROVER_ensures(H_LIVE(this_))
+__CPROVER_ensures(CREATED(0, TRC(H_CB(this_)), THIS_ALIVE_WITH) && gh_sub_ok == 0)                                /* resolved: the handle only, tracer not charged */
+__CPROVER_ensures(IS_READY(H_OBJ(this_)) && TR_EMPTY(H_OBJ(this_)))
+__CPROVER_ensures(STATE(H_OBJ(this_)) == ST_EXCEPTION && EXC_OBJ(H_OBJ(this_)) == (void *)(gh_excblk + CV_EXC_HDR))   /* THE exception handed in */
+__CPROVER_ensures((gh_ep_addref - __CPROVER_old(gh_ep_addref)) + (*(void **)e == 0 ? 1u : 0u) == (gh_ep_release - __CPROVER_old(gh_ep_release)) + 1u)   /* the state owns exactly one reference */
+;
+#endif
+#ifdef CV_HAS_sf_set_value
+void sf_set_value(SF *this_, cv_i32 *v)
+__CPROVER_requires(MODEL_PRE && __CPROVER_is_fresh(this_, sizeof(*this_)) && __CPROVER_is_fresh(v, sizeof(*v)) && gh_sub_calls == 0 && gh_sub_ok == 0)
+__CPROVER_assigns(__CPROVER_object_whole(this_), GH_MAKE, GH_SUB, GH_EP, GH_PDTOR, cv_exc_obj, cv_exc_tinfo)
+__CPROVER_ensures(cv_exc_pending == 0 && *v == __CPROVER_old(*v))
+__CPROVER_ensures(gh_allocs == __CPROVER_old(gh_allocs) + 1 && gh_sp_made == __CPROVER_old(gh_sp_made) + 1 && gh_frees == __CPROVER_old(gh_frees))
+__CPROVER_ensures(H_LIVE(this_))
+__CPROVER_ensures(CREATED(0, TRC(H_CB(this_)), THIS_ALIVE_WITH) && gh_sub_ok == 0)
+__CPROVER_ensures(IS_READY(H_OBJ(this_)) && TR_EMPTY(H_OBJ(this_)))
+__CPROVER_ensures(STATE(H_OBJ(this_)) == ST_VALUE && VALUE(H_OBJ(this_)) == *v)
+__CPROVER_ensures(gh_ep_addref == __CPROVER_old(gh_ep_addref) && gh_ep_release == __CPROVER_old(gh_ep_release))
 ;
 #endif
 
